@@ -46,7 +46,7 @@ def generate(ctx, depth, tier=None):
     return ev[0], states
 
 
-def build_cases(states, events, keep, twins=False, chunk=12):
+def build_cases(states, events, keep, twins=False, chunk=12, readback=True):
     """One case per state with all non-mutating calls on one materialisation, and cases of <= chunk mutating
     calls each of which starts from a fresh materialisation of the state."""
     cases = []
@@ -62,6 +62,14 @@ def build_cases(states, events, keep, twins=False, chunk=12):
             expanded.append(e)
     q = [e for e in expanded if e["op"] not in MUTATING]
     m = [e for e in expanded if e["op"] in MUTATING]
+    if readback:
+        # read-after-write in the spec -> impl direction: the same path with the same localisation choice is read
+        # back (and looked up) on the same directories right after each write
+        for e in m:
+            if e["op"] != "create_dir":
+                e["then"] = [dict(e, op=op, data=[], fix=None) for op in ("read", "file_exists", "resolve")]
+                for t in e["then"]:
+                    t.pop("fix")
     for s in states:
         base = {"game": s["game"], "lang": s["lang"], "layers": s["layers"], "twins": twins}
         if q:
@@ -266,7 +274,7 @@ def run_fs(ctx, laws, keep, owns, profile=None, twins=False, post=None):
     for gi, (depth, tier) in enumerate(gens):
         alphabet, states = generate(ctx, depth, tier)
         n_states += len(states)
-        cases = build_cases(states, alphabet, keep, twins=twins)
+        cases = build_cases(states, alphabet, keep, twins=twins, readback=not twins)
         events, unb = replay(ctx, binary, cases, "gen%d" % gi)
         unb_all += unb
         bad = validate(ctx, events, "gen%d" % gi)
